@@ -375,6 +375,61 @@ def fresh (mi : MetaInfo) : State :=
   { mi := mi, pieces := [], file := List.replicate mi.length 0, inCache := false,
     status := List.replicate mi.numPieces 0, numComplete := 0, committed := false, threads := [] }
 
+/-- a torrent opened over an all-zero status vector of the right length (a fresh file, or a status
+    vector that was discarded) satisfies the invariant whatever the data file holds -/
+theorem zero_status_good (crc : Bytes → Nat) (pl : Nat) (blob : Bytes) (f : Bytes) (hf : f.length = blob.length)
+    (p0 : List PStatus) (n0 : Nat) (c0 : Bool) :
+    Good crc pl blob (openTorrentCore
+      { mi := MetaInfo.ofBlob crc pl blob, pieces := p0, file := f, inCache := false,
+        status := List.replicate (MetaInfo.ofBlob crc pl blob).numPieces 0, numComplete := n0, committed := c0,
+        threads := [] }) := by
+  have hnp : (MetaInfo.ofBlob crc pl blob).numPieces = numPiecesOf pl blob.length := numPieces_ofBlob crc pl blob
+  have hrep : ∀ (n i : Nat), (List.replicate n 0 : Bytes)[i]? ≠ some 1 := by
+    intro n i h
+    rw [List.getElem?_replicate] at h
+    split at h <;> simp at h
+  have hmapc : ∀ (n i : Nat), ((List.replicate n 0 : Bytes).map fun b => if b = 1 then PStatus.complete else PStatus.empty)[i]? ≠ some PStatus.complete := by
+    intro n i h
+    rw [List.getElem?_map, List.getElem?_replicate] at h
+    split at h <;> simp at h
+  have hmapd : ∀ (n i : Nat), ((List.replicate n 0 : Bytes).map fun b => if b = 1 then PStatus.complete else PStatus.empty)[i]? ≠ some PStatus.dirty := by
+    intro n i h
+    rw [List.getElem?_map, List.getElem?_replicate] at h
+    split at h <;> simp at h
+  unfold openTorrentCore
+  simp only [Bool.false_eq_true, if_false]
+  split
+  · refine { mi_eq := rfl, len_pieces := ?_, len_status := ?_, len_file := ?_, status_good := ?_,
+             complete_status := ?_, empty_status := ?_, thr := ?_, excl := ?_, owned := ?_, num := ?_,
+             cache_num := ?_, committed_cache := fun _ => rfl }
+    · simp [hnp]
+    · simp [hnp]
+    · exact hf
+    · intro i hi; exact absurd hi (hrep _ i)
+    · intro i hi; exact absurd hi (hmapc _ i)
+    · intro i _; exact hrep _ i
+    · intro a u hu; simp at hu
+    · intro a b ta tb ha; simp at ha
+    · intro i hi; exact absurd hi (hmapd _ i)
+    · simp
+    · intro _; simp only; omega
+  · refine { mi_eq := rfl, len_pieces := ?_, len_status := ?_, len_file := ?_, status_good := ?_,
+             complete_status := ?_, empty_status := ?_, thr := ?_, excl := ?_, owned := ?_, num := ?_,
+             cache_num := ?_, committed_cache := ?_ }
+    · simp [hnp]
+    · simp [hnp]
+    · exact hf
+    · intro i hi; exact absurd hi (hrep _ i)
+    · intro i hi; exact absurd hi (hmapc _ i)
+    · intro i _; exact hrep _ i
+    · intro a u hu; simp at hu
+    · intro a b ta tb ha; simp at ha
+    · intro i hi; exact absurd hi (hmapd _ i)
+    · simp
+    · intro h; cases h
+    · intro h; cases h
+
+
 theorem init_good (crc : Bytes → Nat) (pl : Nat) (blob : Bytes) :
     Good crc pl blob (init (MetaInfo.ofBlob crc pl blob)) := by
   have hnp : (MetaInfo.ofBlob crc pl blob).numPieces = numPiecesOf pl blob.length := numPieces_ofBlob crc pl blob
@@ -449,6 +504,24 @@ theorem step_good (hpl : 0 < pl) {s : State} (hg : Good crc pl blob s) (a : Acti
     simp only [step]
     split
     · rw [hg.mi_eq]; exact init_good crc pl blob
+    · exact hg
+  | tornReopen n =>
+    simp only [step]
+    split
+    · rename_i hq
+      split
+      · exact reopen_good hg hq.1
+      · rename_i hn
+        have hnp : s.mi.numPieces = numPiecesOf pl blob.length := by
+          rw [hg.mi_eq]; exact numPieces_ofBlob crc pl blob
+        have hlen : ¬ (s.status.take n ++ List.replicate (n - s.status.length) 0).length = s.mi.numPieces := by
+          simp only [List.length_append, List.length_take, List.length_replicate]
+          rw [hnp, ← hg.len_status]; omega
+        unfold openTorrent
+        rw [if_neg (by simp only [hq.2, Bool.false_eq_true, false_or]; exact hlen)]
+        have := zero_status_good crc pl blob s.file hg.len_file s.pieces s.numComplete s.committed
+        simp only [hg.mi_eq, hq.2] at this ⊢
+        exact this
     · exact hg
 
 /-! ### consequences of the invariant -/
